@@ -25,6 +25,10 @@ for metric in (L1, L2, NS1):
     for k, d, q in ((2, 1, 1), (2, 1, 2), (3, 1, 1), (2, 2, 1), (3, 2, 1)):
         quick.append(job("c09.assign", secs=60, src=0, k=k, d=d, q=q, metric=metric))
 quick.append(job("c09.assign", secs=60, src=0, k=3, d=1, q=2, metric=L1))
+# many centroids, one new point (code paths selected by the number of clusters)
+for metric in (L1, L2):
+    quick.append(job("c09.assign", secs=120, jobs=2, src=0, k=9, d=1, q=1, metric=metric))
+quick.append(job("c09.assign", secs=120, jobs=4, src=0, k=12, d=1, q=1, metric=L2))
 extra.append(job("c09.assign", secs=300, src=0, k=3, d=1, q=2, metric=L2))
 extra.append(job("c09.assign", secs=300, jobs=4, src=0, k=3, d=2, q=2, metric=L1))
 # ---- the same on a fitted model (new points and the training rows)
